@@ -175,6 +175,7 @@ func lessDecs(a, b []int64) bool {
 
 // RunPath executes the harness once along the given decision prefix.
 func (m *Machine) RunPath(h *ssa.Function, prefix []int64, wantModel bool) (res *PathResult) {
+	m.solver.MaybeRestart()
 	m.resetPath(prefix)
 	m.harness = h.Name()
 	res = &PathResult{End: "ok"}
